@@ -78,8 +78,44 @@ func runC03(e *Env) error {
 			viol(v[0], v[1], v[2], v[3], map[string]any{"ddl": ddl})
 		}
 	})
+	// hand-written databases: string literals in the places the inspector has to cut out of the stored CREATE
+	// TABLE text (column CHECKs, generated expressions, partial-index predicates), with the characters that
+	// matter there - a backslash at the end of a literal (SQLite has no backslash escapes), doubled quotes,
+	// parentheses and commas inside literals - followed by further quoted text in the same statement
+	for hi, h := range c03Handwritten() {
+		dir := filepath.Join(e.Work, fmt.Sprintf("c03-hand-%d", hi))
+		os.MkdirAll(dir, 0o755)
+		e.Res.Count(fmt.Sprintf("c03-hand-%d", hi), true, "handwritten")
+		for _, v := range c03Run(ctx, e, pool, h.ddl, dir) {
+			if sig, ok := h.known[v[1]]; ok {
+				v[1] = sig // the minimal witness of a recorded finding, under the symptom it is known by
+			}
+			viol(v[0], v[1], v[2], v[3], map[string]any{"ddl": h.ddl})
+		}
+		os.RemoveAll(dir)
+	}
 	e.Res.Note("atlas processes run: %d", cliRuns.Load())
 	return nil
+}
+
+type c03Hand struct {
+	ddl   []string
+	known map[string]string // symptom signature -> signature of the recorded finding this case is the witness of
+}
+
+func c03Handwritten() []c03Hand {
+	rewrap := map[string]string{"export-diff-not-empty": "generated-expression-with-backslash-literal-rewrapped"}
+	keyword := map[string]string{"hcl-export-not-applicable": "check-keyword-inside-literal-taken-for-a-constraint", "sql-export-not-executable": "check-keyword-inside-literal-taken-for-a-constraint"}
+	return []c03Hand{
+		{ddl: []string{"CREATE TABLE `p` (`id` integer NOT NULL, `path` text NULL CHECK (path NOT LIKE '%\\'), `note` text NULL DEFAULT 'x', PRIMARY KEY (`id`))"}},
+		{ddl: []string{"CREATE TABLE `p` (`id` integer NOT NULL, `path` text NULL CHECK (path NOT LIKE 'a\\_%' ESCAPE '\\'), `note` text NOT NULL DEFAULT 'it''s', `more` text NULL DEFAULT 'y', PRIMARY KEY (`id`))"}},
+		{ddl: []string{"CREATE TABLE `g` (`id` integer NOT NULL, `path` text NULL, `unixp` text GENERATED ALWAYS AS (replace(path, '\\', '/')) STORED, `note` text NULL DEFAULT 'x', PRIMARY KEY (`id`))"}, known: rewrap},
+		{ddl: []string{"CREATE TABLE `g` (`id` integer NOT NULL, `path` text NULL, `v` text GENERATED ALWAYS AS (path || '\\') VIRTUAL, `w` text GENERATED ALWAYS AS (path || ')') VIRTUAL, `note` text NULL DEFAULT '(', PRIMARY KEY (`id`))"}, known: rewrap},
+		{ddl: []string{"CREATE TABLE `g` (`id` integer NOT NULL, `path` text NULL, `w` text GENERATED ALWAYS AS (path || ')') VIRTUAL, `u` text GENERATED ALWAYS AS (path || 'it''s (') STORED, `note` text NULL DEFAULT '(', PRIMARY KEY (`id`))"}},
+		{ddl: []string{"CREATE TABLE `c` (`id` integer NOT NULL, `a` text NULL CHECK (a <> '),('), `b` text NULL CHECK (b <> 'it''s, (really)'), `note` text NULL DEFAULT ', (', PRIMARY KEY (`id`))"}},
+		{ddl: []string{"CREATE TABLE `c` (`id` integer NOT NULL, `note` text NULL DEFAULT ', CHECK (', PRIMARY KEY (`id`))"}, known: keyword},
+		{ddl: []string{"CREATE TABLE `i` (`id` integer NOT NULL, `path` text NULL, `note` text NULL DEFAULT 'x', PRIMARY KEY (`id`))", "CREATE INDEX `i_part` ON `i` (`path`) WHERE path <> '\\' AND note <> 'x'"}},
+	}
 }
 
 func c03Run(ctx context.Context, e *Env, pool *hx.Pool, ddl []string, dir string) (viols [][4]string) {
